@@ -367,7 +367,7 @@ func judgeScript(c *rig.Ctx, cs Case, out scriptOut, pmsg string) *failure {
 	// the property, on the real code's answers
 	if sortedScript(cs) {
 		var v struct{ Upper, Lower, Resize bool }
-		if err := c.Model("C06.judge", map[string]interface{}{"qps": cs.QPS, "burst": cs.Burst, "obs": out.Obs}, &v); err != nil {
+		if err := c.Model("C06.judge", map[string]interface{}{"qps": cs.QPS, "burst": cs.Burst, "slack": 1, "obs": out.Obs}, &v); err != nil {
 			return &failure{"diff", "c06.model-error", "judge: " + err.Error(), nil, nil}
 		}
 		if !v.Resize {
@@ -377,7 +377,7 @@ func judgeScript(c *rig.Ctx, cs Case, out scriptOut, pmsg string) *failure {
 			return &failure{"judge", "c06.upper.script", "more than ceil(burst + qps*T) admitted in a window without reconfiguration: " + renderAnswers(cs, out.Answers), out.Answers, nil}
 		}
 		if !v.Lower && lowerJudged(cs) {
-			return &failure{"judge", "c06.lower.script", "fewer than min(burst, floor(qps*idle)) admitted after an idle period: " + renderAnswers(cs, out.Answers), out.Answers, nil}
+			return &failure{"judge", "c06.lower.script", "after an idle period more than one of the owed min(burst, floor(qps*idle)) requests was refused: " + renderAnswers(cs, out.Answers), out.Answers, nil}
 		}
 	}
 	// correspondence
@@ -804,7 +804,8 @@ func runReal(c *rig.Ctx, cs Case) (out realOut, f *failure) {
 				return
 			}
 			out.Owed = o.Owed
-			for i := int64(0); i < out.Owed; i++ {
+			// one refusal is tolerated (float rounding can leave the refilled bucket one nanosecond's worth short)
+			for i := int64(0); i < out.Owed+1 && out.Got < out.Owed; i++ {
 				if g.current().TryAcquire() {
 					out.Got++
 				}
